@@ -46,7 +46,7 @@ CYCLES = [".equ a = %s\n.equ b = %s\n%s" % (x, y, use)
 STRUCTURAL = CYCLES + [".equ a = low(a)\n.dw a", ".equ a = a * 2\n.if a\n.endif", ".set s = 1\n.set s = low(s2)\n.equ s2 = s2\n",
     ".macro a\nb @0\n.endm\n.macro b\na @0\n.endm\na 1", ".macro a\n.if 1\na\n.endif\n.endm\na", ".macro a\n.dseg\n.cseg\na\n.endm\na",
     ".equ x = y\n.equ y = x\n.dw x", ".equ x = x\n.dw x", ".equ x = x + 1\nldi r16, x", ".set s = s\n", ".macro m\nm\n.endm\nm",
-    ".macro a\nb\n.endm\n.macro b\na\n.endm\na", ".macro m\n.macro n\n.endm\nm", ".macro m\n.include \"x\"\n.endm\nm",
+    ".macro a\nb\n.endm\n.macro b\na\n.endm\na", ".macro m\n.macro n\n.endm\nm", ".macro m\n.include \"x\"\n.endm\nm", ".macro m\n.includepath \"x\"\n.endm\nm", ".includepath \"x\"\n.includepath \"/\"\n.includepath \"\"\n",
     ".if 1\n" * 300, ".endif\n" * 50, ".else\n" * 50, ".macro m\n" * 50, ".org 0xFFFFFFFF\nnop", ".org 0xFFFFFFFF\n.db 1,2,3",
     ".org 0x7fffffff\nnop", ".eseg\n.byte 3000000000", ".dseg\n.byte 3000000000", ".dseg\n.byte -1", ".eseg\n.byte -5", ".eseg\n.org 0x7fffffff\n.db 1",
     ".dseg\n.org 0xFFFFFFFF\n.byte 2", ".org 4194303\nnop", ".org 4194304\nnop", ".db " + ", ".join(["1"] * 3000), ".db \"" + "x" * 60000 + "\"",
